@@ -38,6 +38,7 @@ def step (_ : Unit) (ws : List String) : Unit × String :=
   | ["needs"] => ((), sep inferredNeeds)
   | ["needsnocaller"] => ((), sep needsWithoutCaller)
   | ["eitherlock"] => ((), sep eitherLockHelpers)
+  | ["guardexempt"] => ((), sep guardExempt)
   | ["consistent"] => ((), toString (consistent sigma prog && entriesBalanced sigma entries && txOk edgeClass relTbl prog))
   | ["stats"] => ((), s!"functions={prog.length} locks={lockNames.length} classes={classNames.length} entries={entries.length} declared={declared.length} skipped={skipped.length} inlined={inlinedFns.length} trivial={trivialFns.length} touches={touchCount} inferredNeeds={inferredNeeds.length} needsWithoutCaller={needsWithoutCaller.length} eitherLockHelpers={eitherLockHelpers.length}")
   | ["skipped"] => ((), sep (skipped.map (fun x => x.1 ++ " — " ++ x.2)))
